@@ -225,27 +225,36 @@ def r01_3(ctx, run, rule='R01.3'):
     b = f.one("ser::Encoder::<'a>::encode")
     if b is not None:
         ps, _ = explore(b)
-        table = {}
+        vs = [v['name'] for v in f.adts.get(VALUE, {}).get('variants', [])]
+        ai, oi = vs.index('Array'), vs.index('Object')
+        # per Value variant: the writers called on the paths that variant can take (tests of the discriminant of the value argument only;
+        # a prelude that matches the value a second time, or an Option built from it, adds conditions but no other variant)
+        per = {k: [] for k in range(len(vs))}
         for p in ps:
             if p.end[0] != 'return':
                 continue
-            var = [c for c in p.conds if c[0][0] == 'discr']
+            possible = set(range(len(vs)))
+            for c in p.conds:
+                if c[0][0] == 'discr' and is_arg_value(c[0][1], b):
+                    if c[1] == 'eq' and isinstance(c[2], int):
+                        possible &= {c[2]}
+                    elif c[1] == 'ne':
+                        possible -= set(c[2] if isinstance(c[2], tuple) else (c[2],))
             callee = [canon(e[1]).split('::')[-1] for e in p.calls() if called(e[1], 'Encoder::encode_array', 'Encoder::encode_object', 'Encoder::encode_scalar')]
-            if var and var[0][1] == 'eq':
-                table[var[0][2]] = callee
-            elif var:
-                table['otherwise'] = callee
-        vs = [v['name'] for v in f.adts.get(VALUE, {}).get('variants', [])]
-        ai, oi = vs.index('Array'), vs.index('Object')
-        ok = table.get(ai) == ['encode_array'] and table.get(oi) == ['encode_object'] and table.get('otherwise') == ['encode_scalar']
-        known = {'encode_array', 'encode_object', 'encode_scalar'}
-        crossed = any(v_ and set(v_) <= known and v_ != w_ for v_, w_ in ((table.get(ai), ['encode_array']), (table.get(oi), ['encode_object']), (table.get('otherwise'), ['encode_scalar'])))
+            for k in possible:
+                per[k].append(tuple(callee))
+        want_of = lambda k: 'encode_array' if k == ai else 'encode_object' if k == oi else 'encode_scalar'
+        table = {vs[k]: sorted(set(v_)) for k, v_ in per.items()}
+        ok = all(v_ and set(v_) == {(want_of(k),)} for k, v_ in per.items())
+        crossed = any(any(c_ and c_ != (want_of(k),) for c_ in v_) for k, v_ in per.items())
+        inline = [vs[k] for k, v_ in per.items() if any(c_ == () for c_ in v_)]
         if ok:
             run.proved(rule, b.path, 'dispatch', 'Array->encode_array, Object->encode_object, other->encode_scalar', f'{b.file}:{b.line}')
         elif crossed:
             run.violation(rule, b.path, 'dispatch', f'top-level dispatch table is {table}', f'{b.file}:{b.line}')
         else:
-            run.undecided(rule, b.path, 'dispatch', f'top-level dispatch table is {table}: the writers were not recognised by name (renamed?): not decided', f'{b.file}:{b.line}')
+            run.undecided(rule, b.path, 'dispatch', f'top-level dispatch table is {table}: {", ".join(inline) or "some variants"} reach(es) no encode_* writer on some path (written inline or by a '
+                          'writer not recognised by name): not decided', f'{b.file}:{b.line}')
     else:
         run.undecided(rule, 'ser::Encoder::encode', 'dispatch', 'function not found (anchor lost)')
     # decoder: header switch
@@ -467,6 +476,14 @@ def slice_len_lin(arg):
         if w:
             return ({}, w)
     return ({('bytelen', x): 1}, 0)
+
+
+def is_arg_value(t, b):
+    """the term is (a reference chain to) the last parameter of the function — the `value: &Value` of Encoder::encode"""
+    t = deref_all(t)
+    while t[0] in ('ref', 'deref'):
+        t = t[1]
+    return t[0] == 'init' and t[1] == b.argc
 
 
 def writer_contracts(kind):
